@@ -2,6 +2,7 @@
 From Coq Require Import Reals Lra.
 From Coquelicot Require Import Coquelicot.
 From NF Require Import Base.Ops Base.Rops Gen.SplineLinear Gen.SplineQuadratic.
+From NF Require Import Proofs.SplineRQP.
 Open Scope R_scope.
 
 Lemma clamp01_id v : 0 <= v <= 1 -> o_clamp Rops v 0 1 = v.
@@ -92,3 +93,54 @@ Section QuadBin.
       assert (0 < q_slope cc * (b - a)) by (apply Rmult_lt_0_compat; lra). lra.
   Qed.
 End QuadBin.
+
+(* ---------- quadratic bin: the (repaired, stable) inverse root ---------- *)
+Section QuadInv.
+  Variables (l w c0 hl hr y : R).
+  Hypothesis (Hw : 0 < w) (Hhl : 0 < hl) (Hhr : 0 < hr).
+  Hypothesis Hy : c0 <= y <= c0 + (hl + hr) / 2 * w.
+  Let a := qa l w c0 hl hr. Let b := qb l w c0 hl hr. Let c := qc l w c0 hl hr - y.
+  Definition q_alpha : R := quad_inv_alpha Rops y l w c0 hl hr a b (qc l w c0 hl hr).
+
+  Lemma q_alpha_closed : q_alpha = 2 * c / (- b - sqrt (b * b - 4 * a * c)).
+  Proof.
+    unfold q_alpha, quad_inv_alpha, o_sq. cbn [Rops o_sub o_mul o_div o_neg o_sqrt o_ofZ].
+    change (IZR 2) with 2. change (IZR 4) with 4. reflexivity.
+  Qed.
+
+  Lemma q_abc : a = (1 / 2) * (hr - hl) * w /\ b = hl * w /\ c = c0 - y.
+  Proof. destruct (q_coefs l w c0 hl hr) as [E1 [E2 E3]]. unfold a, b, c. rewrite E1, E2, E3. repeat split. Qed.
+
+  (* the returned alpha lies in [0, 1] and solves a alpha^2 + b alpha + (c0 - y) = 0:
+     the inverse output l + alpha * w is the pre-image of y in the bin *)
+  Lemma q_alpha_correct : 0 <= q_alpha <= 1 /\ a * (q_alpha * q_alpha) + b * q_alpha + c = 0.
+  Proof.
+    destruct q_abc as [Ea [Eb Ec]].
+    assert (Hc : c <= 0) by (rewrite Ec; lra).
+    assert (Habc : 0 <= a + b + c) by (rewrite Ea, Eb, Ec; lra).
+    assert (Hb : 0 < b) by (rewrite Eb; apply Rmult_lt_0_compat; assumption).
+    pose proof (alg_disc a b c Hc Habc) as Hd.
+    pose proof (sqrt_pos (b * b - 4 * a * c)) as Ht. pose proof (sqrt_sqrt _ Hd) as Hs.
+    pose proof (alg_q_neg a b c _ Hc Habc (fun _ => Hb) Ht Hs) as Hq.
+    pose proof (alg_root_le_1 a b c _ Hc Habc Ht Hs) as Hle.
+    rewrite q_alpha_closed. set (t := sqrt (b * b - 4 * a * c)) in *. set (q := - b - t) in *.
+    assert (Hiq : / q < 0) by (apply Rinv_lt_0_compat; exact Hq).
+    split; [split|].
+    - unfold Rdiv. replace (2 * c * / q) with ((- (2 * c)) * (- / q)) by ring. apply Rmult_le_pos; lra.
+    - apply (Rmult_le_reg_r (- q)); [lra|]. unfold Rdiv.
+      replace (2 * c * / q * - q) with (- (2 * c) * (q * / q)) by ring. rewrite Rinv_r by lra. unfold q. lra.
+    - assert (Hq0 : q <> 0) by lra.
+      apply (Rmult_eq_reg_r (q * q)); [|apply Rmult_integral_contrapositive_currified; exact Hq0].
+      rewrite Rmult_0_l. unfold Rdiv.
+      replace ((a * (2 * c * / q * (2 * c * / q)) + b * (2 * c * / q) + c) * (q * q))
+        with (c * (4 * a * c + 2 * b * q + q * q)) by (field; exact Hq0).
+      replace (4 * a * c + 2 * b * q + q * q) with (4 * a * c - b * b + t * t) by (unfold q; ring).
+      rewrite Hs. ring.
+  Qed.
+
+  Lemma q_forward_of_inverse : q_raw l w c0 hl hr (l + q_alpha * w) = y.
+  Proof.
+    destruct q_alpha_correct as [_ E]. unfold q_raw. fold a b. replace ((l + q_alpha * w - l) / w) with q_alpha by (field; lra).
+    unfold c in E. cbv zeta. lra.
+  Qed.
+End QuadInv.
